@@ -12,8 +12,8 @@ import (
 
 func init() {
 	register(&Property{
-		ID:  "C05",
-		Run: runC05,
+		ID:          "C05",
+		Run:         runC05,
 		Explanation: "Decides the structural clauses that keep per-source order towards every destination: (R1) the v1 fan-out joins all branch senders of a message before it takes the next one; (R2) the parallel node hands every job to the in-order coordinator in the node's own goroutine on the very select arm that dispatched it, the coordinator waits for each job before forwarding, and it is the only user of the node's Send; (R3) the set of channel sends of *Message in the stream package is closed and every send inside a goroutine literal is one of the tabled, joined ones; (R4) a shared destination subtree is entered under its mutex (held across the whole pass, poison checked after the lock and set before the unlock) and doTaskAttempt is only re-entered by itself; (R5) the v2 tainted loop is sequential with a pre-captured span and status mutations in it touch only the current sub-batch; (R6) sub-batches/clones never alias the parent's slices; (R7) the write entry points of a destination have a closed caller set.",
 		NotDecided:  []string{"channel scheduling and fan-in merge fairness", "actual run-time orders", "that a destination plugin writes in call order"},
 		Assumptions: []string{"Go channels are FIFO", "sync.WaitGroup / sync.Mutex semantics", "conc pool Wait joins all Go calls"},
@@ -193,13 +193,13 @@ func c05R3(c *Ctx) {
 		return ok && types.Identical(pt.Elem(), msgT)
 	}
 	table := map[string]string{
-		"(*" + pStream + ".nodeBase).Send":                  "the node output send",
-		"(*" + pStream + ".FaninNode).Run":                  "fan-in merge output",
-		"(*" + pStream + ".FanoutNode).Run":                 "per-branch sender goroutine (joined, C05.R1)",
-		"(*" + pStream + ".FanoutNode).select1":             "single-branch shortcut",
-		"(*" + pStream + ".pubNodeBase).Trigger":            "the sync.Once-started fetcher goroutine feeding msgChan",
+		"(*" + pStream + ".nodeBase).Send":                    "the node output send",
+		"(*" + pStream + ".FaninNode).Run":                    "fan-in merge output",
+		"(*" + pStream + ".FanoutNode).Run":                   "per-branch sender goroutine (joined, C05.R1)",
+		"(*" + pStream + ".FanoutNode).select1":               "single-branch shortcut",
+		"(*" + pStream + ".pubNodeBase).Trigger":              "the sync.Once-started fetcher goroutine feeding msgChan",
 		"(*" + pStream + ".pubNodeBase).InjectControlMessage": "control message injection",
-		"(*" + pStream + ".parallelNodeWorker).runForwarder": "hands the job's message to the wrapped worker node",
+		"(*" + pStream + ".parallelNodeWorker).runForwarder":  "hands the job's message to the wrapped worker node",
 	}
 	found := map[string]int{}
 	var all []*ssa.Function
@@ -264,7 +264,10 @@ func c05R3(c *Ctx) {
 }
 
 func c05R4(c *Ctx) {
-	r := c.R.Rule("R4", "K4/K3 v2 shared-destination serialisation: doTask enters a shared subtree under sharedMu (deferred unlock), checks the poison flag after the lock and sets it before returning an error; doTaskAttempt is entered only from doTask and itself", 6)
+	c05SharedDest(c, c.R.Rule("R4", "K4/K3 v2 shared-destination serialisation: doTask enters a shared subtree under sharedMu (deferred unlock), checks the poison flag after the lock and sets it before returning an error; doTaskAttempt is entered only from doTask and itself", 6))
+}
+
+func c05SharedDest(c *Ctx, r string) {
 	fn := c.SSA(r, pFunnel, "(*Worker).doTask")
 	attempt := c.Fn(r, pFunnel, "(*Worker).doTaskAttempt")
 	c.WhoMayRef(r, "Worker.doTaskAttempt", Set(attempt), []string{pFunnel + ".(*Worker).doTask", pFunnel + ".(*Worker).doTaskAttempt"})
